@@ -7,6 +7,11 @@
    unique <ints>     -> np.unique
    fromq <ty> <0|1 time-scoped> <g|l> <T> <I> <J> <data> <grp|none> <q0> <q1> -> `spec0 | spec1` or `error ValueError`
    qcount <sample> <q> -> `Q above below floor tie`
+   allperm <perm> <the arguments of all> -> `all` on the arrays re-stored with `reindex perm` (storage-order theorems)
+   xfilt <ty> <xs: rat|nan|inf|-inf> <los> <his> -> `bits | np.where(mask, xs, 0) | 1 if finite`   (extended values)
+   season <months> -> season codes (`none` for a non-month)
+   seq <T> <I> <J> <ty> <spec0> <spec1|-> <grp|none> <data> <op>… -> outputs of the `E` ops joined by `/`
+       ops: E | Y@<ty> | H@<spec0>@<spec1|-> | W@<data> | S@<c> | G@<grp|none>     (one metric object used repeatedly)
    data: T·I·J rationals in C order.  spec: `o:g:v`, `o:l:v,…`, `t:g:k=v;…`, `t:l:k=v,…;…`. -/
 import IbicusModel.Model.Proto
 import IbicusModel.Model.Metrics
@@ -106,17 +111,82 @@ def runAll (ty : ThType) (T I J : Nat) (x : Data) (grp : Option (Nat → Int)) (
 def optSeries (s : String) : Option (Option (Nat → Int)) :=
   if s = "none" then some none else (ints? s).map (fun l => some (seriesOf l.toArray))
 
+def xval? (s : String) : Option XVal :=
+  if s = "nan" then some .nan else if s = "inf" then some .pinf else if s = "-inf" then some .ninf
+  else (parseRat? s).map .fin
+
+def showX : XVal → String
+  | .fin q => showRat q
+  | .nan => "nan"
+  | .pinf => "inf"
+  | .ninf => "-inf"
+
+def runAllArgs (perm : Option (List Nat)) (ty t i j data grp yrs s0 s1 ml labs : String) : String :=
+  match tyOf? ty, t.toNat?, i.toNat?, j.toNat?, rats? data, optSeries grp, optSeries yrs, parseInt? ml with
+  | some ty, some T, some I, some J, some d, some grp, some yr, some ml =>
+    match parseSpec s0 J, (if s1 = "-" then parseSpec s0 J else parseSpec s1 J),
+          (if labs = "none" then some none else (nats? labs).map (fun l => some (natGridOf l.toArray I J))) with
+    | some s0, some s1, some lab =>
+      if d.length ≠ T * I * J then "bad-op" else
+      match perm with
+      | none => runAll ty T I J (gridOf d.toArray I J) grp yr s0 s1 ml lab
+      | some p =>
+        if p.length ≠ T then "bad-op" else
+        runAll ty T I J (reindex p (gridOf d.toArray I J)) (grp.map (reindex p)) (yr.map (reindex p)) s0 s1 ml
+          (lab.map (reindex p))
+    | _, _, _ => "bad-op"
+  | _, _, _, _, _, _, _, _ => "bad-op"
+
+def parseOp (I J : Nat) (tok : String) : Option Op :=
+  match tok.splitOn "@" with
+  | ["E"] => some .eval
+  | ["Y", ty] => (tyOf? ty).map .setType
+  | ["H", s0, s1] => do
+      let a ← parseSpec s0 J
+      let b ← if s1 = "-" then parseSpec s0 J else parseSpec s1 J
+      pure (.setThr a b)
+  | ["W", d] => (rats? d).map (fun l => .write (gridOf l.toArray I J))
+  | ["S", c] => (parseRat? c).map .scale
+  | ["G", g] => (optSeries g).map .setTime
+  | _ => none
+
+def showEval (T I J : Nat) (r : Except String (Nat → Nat → Nat → Nat)) : String :=
+  match r with
+  | .error e => "error " ++ e
+  | .ok a => "ok:" ++ String.join ((tab3 T I J a).map toString)
+
 def step (line : String) : String :=
   match line.splitOn " " with
-  | ["all", ty, t, i, j, data, grp, yrs, s0, s1, ml, labs] =>
-      match tyOf? ty, t.toNat?, i.toNat?, j.toNat?, rats? data, optSeries grp, optSeries yrs, parseInt? ml with
-      | some ty, some T, some I, some J, some d, some grp, some yr, some ml =>
-        match parseSpec s0 J, (if s1 = "-" then parseSpec s0 J else parseSpec s1 J),
-              (if labs = "none" then some none else (nats? labs).map (fun l => some (natGridOf l.toArray I J))) with
-        | some s0, some s1, some lab =>
-          if d.length ≠ T * I * J then "bad-op" else runAll ty T I J (gridOf d.toArray I J) grp yr s0 s1 ml lab
+  | ["all", ty, t, i, j, data, grp, yrs, s0, s1, ml, labs] => runAllArgs none ty t i j data grp yrs s0 s1 ml labs
+  | ["allperm", perm, ty, t, i, j, data, grp, yrs, s0, s1, ml, labs] => match nats? perm with
+      | some p => runAllArgs (some p) ty t i j data grp yrs s0 s1 ml labs
+      | none => "bad-op"
+  | ["xfilt", ty, xs, los, his] => match tyOf? ty, parseList? xval? xs, rats? los, rats? his with
+      | some ty, some xs, some los, some his =>
+        if los.length ≠ xs.length ∨ his.length ≠ xs.length then "bad-op" else
+        let xa := xs.toArray
+        let la := los.toArray
+        let ha := his.toArray
+        let x : Nat → Nat → Nat → XVal := fun t _ _ => xa.getD t .nan
+        let m : Mask := fun t _ _ => condX ty (xa.getD t .nan) (la.getD t 0) (ha.getD t 0)
+        let out := (List.range xs.length).map (fun t => filtG x m t 0 0)
+        String.join ((List.range xs.length).map (fun t => if m t 0 0 then "1" else "0")) ++ " | " ++ showList showX out
+          ++ " | " ++ (if out.all XVal.isFin then "1" else "0")
+      | _, _, _, _ => "bad-op"
+  | ["season", ms] => match ints? ms with
+      | some ms => showList (fun o => match o with | some c => toString c | none => "none") (ms.map seasonOfMonth)
+      | none => "bad-op"
+  | "seq" :: t :: i :: j :: ty :: s0 :: s1 :: grp :: data :: ops =>
+      match t.toNat?, i.toNat?, j.toNat?, tyOf? ty, rats? data, optSeries grp with
+      | some T, some I, some J, some ty, some d, some grp =>
+        match parseSpec s0 J, (if s1 = "-" then parseSpec s0 J else parseSpec s1 J), ops.mapM (parseOp I J) with
+        | some s0, some s1, some ops =>
+          if d.length ≠ T * I * J then "bad-op" else
+          let st : MState := ⟨ty, s0, s1, gridOf d.toArray I J, grp⟩
+          let outs := (runOps T st ops).map (showEval T I J)
+          if outs.isEmpty then "-" else "/".intercalate outs
         | _, _, _ => "bad-op"
-      | _, _, _, _, _, _, _, _ => "bad-op"
+      | _, _, _, _, _, _ => "bad-op"
   | ["spell", b] => match bits? b with
       | some m => (match spellsLiteral m with
           | none => "error IndexError"
